@@ -254,6 +254,28 @@ UNITS += [
 """),
 ]
 
+CH = "crates/core/src/chunker.rs"
+UNITS += [
+    Unit(name="ChunkIterEnum", file=CH, kind="type", anchor="pub(crate) enum ChunkIter<R: Read + Send> {",
+         rewrites=[Rw("enum ChunkIter<R: Read + Send> {", "enum ChunkIter<R> {", why="reader bound dropped (opaque reader)")]),
+    Unit(name="chunker_from_config", file=CH, anchor="pub(crate) fn from_config(", within="impl<R: Read + Send> ChunkIter<R> {", ret_name="r",
+         wrap_open="impl<R> ChunkIter<R> {", wrap_close="}",
+         functions=["chunker::ChunkIter::from_config"],
+         contract="""
+    requires
+        // exactly what ConfigOptions::apply ensures for every configuration it accepts (clauses apply.seg1_rabin / seg1_fixed)
+        chunker_config_ok(*config),
+    ensures
+        /*@accepted_config_always_yields_a_chunker*/ (config.eff_chunker() is FixedSize || config.poly_ok()) ==> r is Ok,
+        /*@chunker_is_the_configured_one*/ match r {
+            Ok(ChunkIter::Rabin(b)) => config.eff_chunker() is Rabin && b.size == config.eff_chunk_size() && b.min_size == config.eff_chunk_min_size()
+                && b.max_size == config.eff_chunk_max_size() && b.reader == reader,
+            Ok(ChunkIter::FixedSize(f)) => config.eff_chunker() is FixedSize && f.size == config.eff_chunk_size() && f.size >= 1 && f.reader == reader,
+            Err(_) => true,
+        },
+"""),
+]
+
 KANI = []
 META = {"not_covered": [
     "the end-to-end statement 'backup, check and restore succeed on every accepted configuration' (composition)",
